@@ -770,6 +770,8 @@ class Models:
                 return obj.attrs[name]
             if name in obj.methods:
                 return StubMethod(obj, name)
+            if name == "log":
+                return obj.log
             pyraise(AttributeError, f"stub {obj.stub_name} has no attribute {name}")
         if isinstance(obj, types.ModuleType):
             return native(getattr, obj, name)
@@ -1302,7 +1304,10 @@ class Models:
             return M.get_attr(W, a[0], "__dict__")
 
         def b_open(W, a, k):
-            raise Unsupported("open() without a harness stub")
+            h = getattr(M.eng, "open_handler", None)
+            if h is None:
+                raise Unsupported("open() without a harness stub")
+            return h(I, W, a, k)
 
         t = {builtins.len: b_len, builtins.isinstance: b_isinstance, builtins.issubclass: b_issubclass,
              builtins.iter: b_iter, builtins.next: b_next, builtins.sorted: b_sorted, builtins.any: b_any,
